@@ -82,6 +82,35 @@ Theorem C12_C1_boundary :
 Proof. exact ell_boundary. Qed.
 Print Assumptions C12_C1_boundary.
 
+(* C1, part 3: every force component is continuous along every coordinate line through every point,
+   at every parameter value — including the lines through the apex of the cone, the zone boundaries
+   and the axis T = 0 (proved for every row composition and contact dimension) *)
+Theorem C12_C1_force :
+  forall flgH ne nf (con : list (@contact R)) (rows : list (@rowdesc R)) (jar : list R) a k,
+    cu_wf (length rows) ne nf con 0 rows -> length jar = length rows -> (a < length jar)%nat -> (k < length jar)%nat ->
+    forall t : R,
+      continuous (fun u : R => nth a (cu_force (constraint_update flgH ne nf con rows (upd jar k u))) 0) t.
+Proof. exact cu_force_line. Qed.
+Print Assumptions C12_C1_force.
+
+(* cone Hessian, any contact dimension: strictly inside the middle zone the update (with
+   flg_coneHessian) returns state CONE and a dim x dim matrix H (row-major) that is symmetric and whose
+   entry (a, b) is the partial derivative of -efc_force[a] with respect to jar[b], i.e. the Hessian of
+   the cost *)
+Theorem C12_hessian :
+  forall s mu fr D0 Dt (x0 : R) (xt : list R), 0 < mu ->
+    length Dt = length xt -> (length xt <= length fr)%nat ->
+    x0 * mu < mu * Tnorm xt fr -> 0 < mu * (x0 * mu) + Tnorm xt fr ->
+    exists H : list R,
+      snd (block_ell true s mu fr (D0 :: Dt) (x0 :: xt)) = Some H /\
+      e_state (block_ell true s mu fr (D0 :: Dt) (x0 :: xt)) = ST_CONE /\
+      forall a b, (a < S (length xt))%nat -> (b < S (length xt))%nat ->
+        nth (a * S (length xt) + b) H 0 = nth (b * S (length xt) + a) H 0 /\
+        is_derive (fun t : R => nth a (e_force (block_ell true s mu fr (D0 :: Dt) (upd (x0 :: xt) b t))) 0)
+                  (nth b (x0 :: xt) 0) (- nth (a * S (length xt) + b) H 0).
+Proof. exact ell_hessian_full. Qed.
+Print Assumptions C12_hessian.
+
 (* friction-loss rows: with D*R = 1 cost and force are D times the Huber function of threshold R*floss
    and its derivative, which is the clamp of jar to [-R*floss, R*floss] (continuous) *)
 Theorem C12_C1_friction :
